@@ -4,12 +4,12 @@
    field multiplication of every 16-bit lane on structured and pseudo-random blocks;
    (2) the one-layer and the two-layer schedules agree on the contract-defined outputs for all
    sizes up to 32, all truncations; (3) untruncated they agree on all outputs.
-   General theorems: C03_mul_portable (kernels of the portable engines), C03_fft_untruncated,
-   C03_fft_truncated and C03_ifft_truncated (schedules: any element type, size, truncation). *)
+   General theorems: C03_mul_all_engines (kernels), C03_fft_untruncated, C03_fft_truncated and
+   C03_ifft_truncated (schedules: any element type, size, truncation). *)
 From Coq Require Import NArith Bool List Lia.
 From RS.Gen Require Import Prelude GenConsts.
 From RS.Model Require Import Field Tables Sched Layout Kernels.
-From RS.Proofs Require Import FieldFacts Param Linear SchedEquiv Trunc.
+From RS.Proofs Require Import FieldFacts Param Linear SchedEquiv Trunc KernelFacts.
 Import ListNotations.
 Local Open Scope N_scope.
 
@@ -26,6 +26,14 @@ Theorem C03_mul_portable : forall m b, m <= 65535 -> length b = 64%nat -> Forall
   naive_mul_block m b = spec_mul_block m b /\ nosimd_mul_block m b = spec_mul_block m b.
 Proof. intros; split; [apply naive_mul_block_spec|apply nosimd_mul_block_spec]; assumption. Qed.
 Print Assumptions C03_mul_portable.
+
+(* every engine's kernel (incl. the SSSE3, AVX2 and Neon models built from pshufb / psrlq+pand /
+   vpshufb on a broadcast LUT / vqtbl1q / vshrq) is, for EVERY 64-byte block and every
+   multiplier, the field multiplication of each of its 32 lanes: all engines bit-identical *)
+Theorem C03_mul_all_engines : forall e m b, m <= 65535 -> length b = 64%nat -> Forall (fun x => x < 256) b ->
+  mul_block e m b = spec_mul_block m b.
+Proof. exact mul_block_spec. Qed.
+Print Assumptions C03_mul_all_engines.
 
 (* untruncated transforms: every engine computes exactly what the reference engine computes,
    on ALL outputs, for any element type (symbols or whole shards), any size 2^k <= 2^16, any
